@@ -184,6 +184,12 @@ func (rw *Rewriter) Visit(node sql.Node) (w sql.Visitor, n sql.Node, err error) 
 		// NO random() rewriting past this point.
 		rw.orderedBy = true
 		return rw, node, nil
+	case *sql.Null, sql.SelectExpr, *sql.WithClause:
+		// sql.Walk does not descend into these nodes.
+		retNode, err = rw.walkChildren(n)
+		if err != nil {
+			return nil, nil, err
+		}
 	case *sql.Call:
 		// If used, ensure the value is same for the duration of the statement
 		jd := julianDayAsNumberLit(rw.nowFn())
@@ -238,6 +244,44 @@ func (rw *Rewriter) Visit(node sql.Node) (w sql.Visitor, n sql.Node, err error) 
 		}
 	}
 	return rw, retNode, nil
+}
+
+// walkChildren walks the children of those nodes which sql.Walk passes to
+// the visitor but whose children it does not visit: the operand of IS NULL
+// and its variants, a SELECT used as an expression, and the SELECTs of the
+// common table expressions of a WITH clause. Without this, function calls
+// below such a node would never be rewritten.
+func (rw *Rewriter) walkChildren(node sql.Node) (sql.Node, error) {
+	switch n := node.(type) {
+	case *sql.Null:
+		if n.X != nil {
+			x, err := sql.Walk(rw, n.X)
+			if err != nil {
+				return nil, err
+			}
+			n.X = x.(sql.Expr)
+		}
+	case sql.SelectExpr:
+		if n.SelectStatement != nil {
+			s, err := sql.Walk(rw, n.SelectStatement)
+			if err != nil {
+				return nil, err
+			}
+			return sql.SelectExpr{SelectStatement: s.(*sql.SelectStatement)}, nil
+		}
+	case *sql.WithClause:
+		for _, cte := range n.CTEs {
+			if cte == nil || cte.Select == nil {
+				continue
+			}
+			s, err := sql.Walk(rw, cte.Select)
+			if err != nil {
+				return nil, err
+			}
+			cte.Select = s.(*sql.SelectStatement)
+		}
+	}
+	return node, nil
 }
 
 func (rw *Rewriter) VisitEnd(node sql.Node) (sql.Node, error) {
